@@ -67,6 +67,14 @@ def cases(tier: str, seed: int) -> list[dict]:
                             "mesh": mc, "rho": rho_forms[(k + j + r) % 3]})
             out.append({"kind": "thermal", "dim": dim, "et": et, "mesh": ["patch", "gmsh"][(k + r) % 2], "rho": rho_forms[(k + r + 1) % 3]})
             k += 1
+        # curved (isoparametric) elements: a plate with a circular hole at three length scales (metres, a 100 micrometre part, millimetres
+        # of a large structure); rigid-body motions stay in the kernel and the mass is that of the curved domain
+        for j, et in enumerate([e for e in gm.ET_2D + gm.ET_3D if gm.ORDER[e] >= 2]):
+            if tier == "quick" and et in ("HEXA27", "PRISM18") and (j + r) % 2:
+                continue
+            dim = 2 if et in gm.ET_2D else 3
+            out.append({"kind": ["elastic", "thermal"][(j + r) % 3 == 2], "dim": dim, "et": et, "law": gmat.KINDS[(k + j) % 4], "ps": bool((k + j) % 2) and dim == 2,
+                        "mesh": "curved", "rho": "scalar", "scale": [1e-4, 1.0, 1e3][(j + r) % 3], "layers": 1})
         # several element groups of the main dimension in one mesh (merged conforming blocks)
         for pair in ["TRI3+QUAD4", "TRI6+QUAD8", "TRI6+QUAD9", "PRISM6+HEXA8"] + (["PRISM15+HEXA20"] if tier == "thorough" else []):
             dim = 2 if pair.startswith("TRI") else 3
